@@ -60,6 +60,9 @@ def run(sql, meta, provider_kind, dialect):
     return tabs, cols
 
 
+DIALECTS_FOR = {"positional_overwrite": ("sparksql", "hive")}
+
+
 def cases(thorough):
     """(name, sql, tables in scope, oracle(known: dict table->cols) -> (clause, expected pairs or None))"""
     out = []
@@ -113,7 +116,10 @@ def cases(thorough):
         return "explicit_column_list_always_wins", sorted([("s.a.id", "s.o.e1"), ("s.a.a2", "s.o.e2")])
 
     out.append(("explicit", "insert into s.o (e1, e2) select id as p, a2 as q from s.a", ["s.o", "s.a"], explicit))
-    if thorough:
+    out.append(("positional_overwrite", "insert overwrite table s.o select id as p, a2 as q from s.a", ["s.o", "s.a"], positional))
+    # CREATE TABLE AS defines its own columns: metadata about the target never renames them
+    out.append(("ctas_keeps_its_names", "create table s.o as select id as p, a2 as q from s.a", ["s.o", "s.a"], lambda known: ("ctas_target_columns_are_the_select_names", sorted([("s.a.id", "s.o.p"), ("s.a.a2", "s.o.q")]))))
+    if True:
         out.append(("star_subq", "insert into s.o select * from (select id, a2 from s.a) t", ["s.a"], lambda known: ("subquery_columns_do_not_need_metadata", sorted([("s.a.id", "s.o.id"), ("s.a.a2", "s.o.a2")]))))
         out.append(("star_cte", "insert into s.o with t as (select * from s.a) select * from t", ["s.a"], star_one))
     return out
@@ -131,6 +137,7 @@ TABLE_LEVEL = [
     "insert into s.o select * from s.a; alter table s.o rename to s.p",
     "select * from s.a",
     "insert into s.o select id from s.a; insert into s.a select o1 from s.o",
+    "insert into o select * from a",
 ]
 
 
@@ -147,7 +154,7 @@ def main():
                     known = {t: universe[t] for t in known_tabs}
                     # an always-known bystander keeps the provider truthy when nothing in scope is known
                     meta = dict(known, **{"zz.other": ["q"]})
-                    for dialect in ("ansi", "non-validating"):
+                    for dialect in DIALECTS_FOR.get(name, ("ansi", "non-validating")):
                         if dialect == "non-validating" and name in ("positional", "explicit"):
                             continue  # target-column naming from metadata is implemented by the sqlfluff extractors only
                         base = run(sql, None, None, dialect)
